@@ -289,9 +289,12 @@ CHECKS = {
             'For every list of command lines and every behaviour of each command (exit code, output on both streams, '
             'or cannot be started): done_iff_all_zero, codes_are_prefix, not_run_after_failure (commands after the '
             'first failure have no influence), spawn_error_fails_task_not_run, output_in_order, status_total; '
-            'outdir_injective and bad_name_fails_task for every task name. Tied to run.py by running generated '
+            'outdir_injective and bad_name_fails_task for every task name; build_eq_run / build_done_iff: the configure-then-'
+            'build sequence of BuildTask (code.py) is the two commands run in sequence, so the same statements hold for it. '
+            'Tied to run.py by running generated '
             'command lists as real /bin/sh processes (missing / non-executable programs included) through RunTask.do '
-            'and through Scheduler+QueueScheduling, comparing status, return codes, directory and file contents.',
+            'and through Scheduler+QueueScheduling, comparing status, return codes, directory and file contents (byte for '
+            'byte), and to code.py by BuildTask runs with a scripted stand-in for cmake (journal of the invocations).',
             'Trusted: Lean kernel + standard axioms; process spawning, fd inheritance and shlex.quote are exercised, '
             'not modelled; the worker\'s exception-to-FAILED mapping is part of the scheduler model (C02).',
             '5 (C19)'),
